@@ -7,6 +7,64 @@ package otter
 func init() {
 	vRegister("ZZ_C03_ExpiredUnswept", ZZ_C03_ExpiredUnswept)
 	vRegister("ZZ_C03_Sync", ZZ_C03_Sync)
+	vRegister("ZZ_C03_IterAdvancing", ZZ_C03_IterAdvancing)
+}
+
+// ZZ_C03_IterAdvancing: the clock moves *while* an iteration is in progress (the loop body advances it by a symbolic
+// amount after the first yield). Whatever All/Keys/Values yield afterwards must not have reached its deadline at the
+// moment it is yielded ("no operation ... iterates over it"). Hottest/Coldest are left out: they are documented
+// snapshots taken before the first yield.
+func ZZ_C03_IterAdvancing() {
+	cfg := zzCfgFromParams()
+	cfg.deferred = true
+	s := zzNewSeq(cfg, "c03i")
+	c := s.env.c
+	s.env.clk.now = zzTime("t0")
+	nk := vParam("nkeys")
+	for k := 1; k <= nk; k++ {
+		s.step(zzOpSet, k, "c03i.prefix")
+		s.advance()
+	}
+	which := vChoice("iterator", 3)
+	vScenario([]string{"All", "Keys", "Values"}[which])
+	yields := 0
+	body := func(k int, haveKey bool, v int) {
+		yields++
+		if !haveKey {
+			for kk := 1; kk <= nk; kk++ {
+				if s.m[kk].val == v {
+					k = kk
+				}
+			}
+		}
+		vAssert(k >= 1 && k <= nk, "c03i.iter.key")
+		if k >= 1 && k <= nk {
+			vAssert(s.present(k), "c03i.iter.never_yields_an_entry_whose_deadline_has_been_reached")
+		}
+		if yields == 1 {
+			s.advance()
+		}
+	}
+	switch which {
+	case 0:
+		for k, v := range c.All() {
+			body(k, true, v)
+		}
+	case 1:
+		for k := range c.Keys() {
+			body(k, true, 0)
+		}
+	default:
+		for v := range c.Values() {
+			body(0, false, v)
+		}
+	}
+	if yields >= 2 {
+		vReach("c03i.second_yield_reached")
+	}
+	if vParam("canary") == 1 {
+		vAssert(yields < 2, "c03i.canary")
+	}
 }
 
 // ZZ_C03_Sync: same-goroutine executor and a size bound (Coldest/Hottest, maintenance inside the operations),
